@@ -18,6 +18,14 @@ macro_rules! dispatch {
         match $id {
             "C01" => $f(&props::solve::SolveProp { id: "C01" } $(, $arg)*),
             "C02" => $f(&props::solve::SolveProp { id: "C02" } $(, $arg)*),
+            "C03" => $f(&props::iter::IterProp $(, $arg)*),
+            "C04" => $f(&props::opt::OptProp $(, $arg)*),
+            "C05" => $f(&props::opt::AssumpProp $(, $arg)*),
+            "C07" => $f(&props::iter::MultiProp { id: "C07" } $(, $arg)*),
+            "C08" => $f(&props::iter::MultiProp { id: "C08" } $(, $arg)*),
+            "C09" => $f(&props::iter::MultiProp { id: "C09" } $(, $arg)*),
+            "C12" => $f(&props::opt::BoundsProp $(, $arg)*),
+            "C17" => $f(&props::expl::ExplProp $(, $arg)*),
             other => {
                 eprintln!("unknown property {other}");
                 std::process::exit(2)
